@@ -57,6 +57,8 @@ pub struct WorldB {
     queue: std::collections::VecDeque<Step>,
     /// admin sets as the history of successful UpdateAdmins requests defines them (request model)
     model_admins: BTreeMap<String, std::collections::BTreeSet<String>>,
+    /// subkey allowances as the history of successful admin grants and own spends defines them (request model)
+    model_allow: BTreeMap<String, (BTreeMap<String, u128>, Expiration)>,
 }
 
 fn cm(v: &CosmosMsg) -> Value {
@@ -307,6 +309,44 @@ impl WorldB {
                         format!("Execute relayed {} messages, {} were submitted (or reply/gas limit set)", got.len(), msgs.len()),
                     );
                 }
+                // C07 (request model): what admins granted, minus what was spent, must cover every relayed send and
+                // must not have expired — independently of what the contract currently believes
+                if is_sk && !is_admin {
+                    let mut total: BTreeMap<String, u128> = BTreeMap::new();
+                    for m in &msgs {
+                        if let CosmosMsg::Bank(BankMsg::Send { amount, .. }) = m {
+                            for c in amount {
+                                *total.entry(c.denom.clone()).or_insert(0) += c.amount.u128();
+                            }
+                        }
+                    }
+                    let has_send = msgs.iter().any(|m| matches!(m, CosmosMsg::Bank(BankMsg::Send { .. })));
+                    if has_send {
+                        let entry = self.model_allow.get(&f.sender).cloned();
+                        let ok_model = match &entry {
+                            Some((bal, e)) => !expired(e, &f.block) && total.iter().all(|(d, a)| bal.get(d).cloned().unwrap_or(0) >= *a),
+                            None => false,
+                        };
+                        if !ok_model {
+                            self.viol(
+                                out,
+                                "C07",
+                                "relayed-beyond-granted-allowance",
+                                json!({"model_entry_present": entry.is_some(), "model_expired": entry.as_ref().map(|e| expired(&e.1, &f.block))}),
+                                format!("subkey relayed bank sends totalling {:?}; by the history of grants and spends its allowance is {:?}", total, entry),
+                            );
+                        }
+                        if committed {
+                            if let Some((bal, _)) = self.model_allow.get_mut(&f.sender) {
+                                for (d, a) in &total {
+                                    let e = bal.entry(d.clone()).or_insert(0);
+                                    *e = e.saturating_sub(*a);
+                                }
+                                bal.retain(|_, v| *v != 0);
+                            }
+                        }
+                    }
+                }
                 // C08: deduction
                 if is_sk && !is_admin {
                     // everything the call relays in bank sends, whether covered or not
@@ -445,6 +485,35 @@ impl WorldB {
                 }
                 if committed {
                     self.meter.flag("allowance_change_ok");
+                    if let Some(c) = serde_json::from_value::<Coin>(body["amount"].clone()).ok() {
+                        let prev = self.model_allow.get(&spender).cloned();
+                        if kind == "increase_allowance" {
+                            let mut cur = match &prev {
+                                Some((b, e)) if !expired(e, &f.block) => (b.clone(), *e),
+                                _ => (BTreeMap::new(), Expiration::Never {}),
+                            };
+                            if let Some(e) = exp {
+                                cur.1 = e;
+                            }
+                            let a = cur.0.entry(c.denom.clone()).or_insert(0);
+                            *a = a.saturating_add(c.amount.u128());
+                            cur.0.retain(|_, v| *v != 0);
+                            self.model_allow.insert(spender.clone(), cur);
+                        } else if let Some((b, e)) = prev {
+                            let mut cur = (b, e);
+                            if let Some(e2) = exp {
+                                cur.1 = e2;
+                            }
+                            let a = cur.0.entry(c.denom.clone()).or_insert(0);
+                            *a = a.saturating_sub(c.amount.u128());
+                            cur.0.retain(|_, v| *v != 0);
+                            if cur.0.is_empty() {
+                                self.model_allow.remove(&spender);
+                            } else {
+                                self.model_allow.insert(spender.clone(), cur);
+                            }
+                        }
+                    }
                 }
                 self.meter.token(&kind, role, if committed { "committed" } else { "rolled-back" }, 0);
             }
@@ -933,6 +1002,7 @@ impl World for WorldB {
             deadlines_t: vec![],
             queue: Default::default(),
             model_admins: BTreeMap::new(),
+            model_allow: BTreeMap::new(),
         };
         w.meter.flag("instantiated");
         let mut pend = vec![];
@@ -1035,6 +1105,45 @@ impl World for WorldB {
                 } else {
                     self.queue.push_back(admin_step);
                     return spend_step;
+                }
+            }
+        }
+        if rng.chance(1, 25) {
+            // exhaust -> re-grant -> deadline: the subkey spends its whole allowance, an admin tops it up without naming an
+            // expiry, the clock passes the original expiry, the subkey spends again
+            let b = self.chain.block();
+            let mut live: Vec<(String, Vec<Coin>, Expiration)> = vec![];
+            let mut admin: Option<String> = None;
+            if let Some(s) = self.last.get("sk") {
+                admin = s.admins.iter().find(|a| self.users.contains(*a)).cloned();
+                for (i, u) in self.universe.iter().enumerate() {
+                    if self.users.contains(u) && !s.admins.contains(u) {
+                        if let Some(a) = s.allow.get(i) {
+                            if !a.0.is_empty() && !matches!(a.1, Expiration::Never {}) {
+                                live.push((u.clone(), a.0.clone(), a.1));
+                            }
+                        }
+                    }
+                }
+            }
+            if let (Some(adm), false) = (admin, live.is_empty()) {
+                let (sub, coins, e) = rng.pick(&live).clone();
+                let to = rng.pick(&self.universe).clone();
+                let tx = |sender: &str, msg: Value| Step::Tx { sender: sender.to_string(), target: "sk".into(), msg, funds: vec![], fault: None, script: vec![] };
+                let spend_all = tx(&sub, json!({"execute":{"msgs":[cm(&CosmosMsg::Bank(BankMsg::Send { to_address: to.clone(), amount: coins.clone() }))]}}));
+                let regrant = tx(&adm, json!({"increase_allowance":{"spender": sub, "amount": {"denom": coins[0].denom, "amount": "7"}, "expires": null}}));
+                let jump = match e {
+                    Expiration::AtHeight(h) if h > b.height => Some(Step::Block { dh: h - b.height, dt: (h - b.height).saturating_mul(self.cfg.spb) }),
+                    Expiration::AtTime(t) if t.seconds() > b.time.seconds() => Some(Step::Block { dh: 1, dt: t.seconds() - b.time.seconds() }),
+                    _ => None,
+                };
+                if let Some(j) = jump {
+                    let spend_again = tx(&sub, json!({"execute":{"msgs":[cm(&CosmosMsg::Bank(BankMsg::Send { to_address: to, amount: vec![Coin::new(3u128, coins[0].denom.clone())] }))]}}));
+                    self.queue.push_back(regrant);
+                    self.queue.push_back(j);
+                    self.queue.push_back(spend_again);
+                    self.meter.hit("exhaust_regrant_deadline_sequence");
+                    return spend_all;
                 }
             }
         }
